@@ -39,3 +39,13 @@ add('C04', 'exploration', 'reference-interpreter monitor over generated stub con
     'Thousands of generated well-formed configurations (default + overlapping When/In clauses with plain values, Any, In) on fixed, variadic (0-3 leading fixed) and method targets are exercised by real calls through the patched code; each outcome (value or "no suitable condition" panic) is compared with a 40-line interpreter of the documented rule. Sampled over configurations and argument tuples; evidence counts the first-match-wins cases with 2+ matching clauses.',
     'Equality in the interpreter is reflect.DeepEqual on same-typed values (pointers by pointee); When.Eval is cross-checked only for plain functions; a first When on a variadic target is generated with at least one variadic element (fewer is C13 territory).',
     'DESIGN.md 2 C04')
+
+add('C09', 'exploration', 'table-driven delivery monitor through real stubbed functions (memory image / identity / dynamic type / typed-zero / configuration-time rejection oracles)',
+    'Every (declared type, supplied value, API form) cell of a generated table is configured through the public API and the value the caller actually receives is compared with the supplied one by memory image, identity and dynamic type; size mismatches must be rejected at configuration and leave the target unmocked; unexported types are reached through layout-identical stand-ins. The table is finite and run completely; the type/value space itself is sampled by the table.',
+    'For same-size values of a different scalar type the statement fixes no outcome: only silent alteration is flagged.',
+    'DESIGN.md 2 C09')
+
+add('C18', 'exploration', 'algebraic-law and Go-equality monitor over generated same-typed value pairs, via Expr.Resolve/Eval and via real When stubs',
+    'Hundreds of thousands of generated (pattern, argument) pairs per run over all kinds named by the statement, boundary values and nils; Equals is compared with Go ==/DeepEqual/identity, checked for symmetry, In against the union of Equals, Any for totality, re-evaluation for stability, all under recover; a subset runs through real patched functions.',
+    'NaN, +-0 pairs, cross-type coercions and distinct closures of one literal are outside the statement and not generated.',
+    'DESIGN.md 2 C18')
